@@ -1,17 +1,26 @@
 (* C17 property theorems. This file contains only statements closed by
-   [exact lemma] and Print Assumptions. *)
-From V Require Import Common.Base C17.WriteSM C17.Spec C17.Proofs.
+   [exact lemma] and Print Assumptions.
 
-(* validateBuildOptions: overwriting inputs is allowed exactly when the user
-   allowed it or nothing is written *)
+   Vocabulary (WriteSM.v): [step_gen phys fixed opt st oc = (st', r)] is one
+   (re)build of a context with options [opt] from state [st] (disk, hash table)
+   when scan+link produced [oc]; [fixed = false] ([step]) is the pinned code,
+   [fixed = true] the candidate repair; [phys] resolves a path to the file it
+   denotes ([phys_id]: no symbolic links); [r_failed_early r]: the log has
+   errors when the write phase starts (scan, link, overwrite/duplicate checks,
+   cancellation); [r_errors r]: the build reports errors (also on-end errors). *)
+From V Require Import Common.Base C17.WriteSM C17.Spec C17.Proofs C17.CompileProofs C17.DiskProofs C17.SpecProofs C17.Findings.
+
+(* ---- mechanism: validateBuildOptions ---- *)
 Theorem allow_overwrite_forced_only_without_write :
   forall o, effective_allow o = true <-> allow_overwrite o = true \/ write o = false.
 Proof. exact effective_allow_spec. Qed.
 Print Assumptions allow_overwrite_forced_only_without_write.
 
+(* ---- a build writes exactly the files it reports ---- *)
+
 (* every file operation that creates or modifies a file writes a reported
-   output at its reported path with its reported contents, in a build that had
-   no error when the write phase started, with writing enabled *)
+   output at its reported path with its reported contents, in a build without
+   error when the write phase started, with writing enabled (any file system) *)
 Theorem writes_are_reported :
   forall phys fixed opt st oc st' r p c,
     step_gen phys fixed opt st oc = (st', r) -> In (EWrite p c) (r_effects r) ->
@@ -19,3 +28,189 @@ Theorem writes_are_reported :
     exists o, In o (r_outputs r) /\ o_path o = p /\ o_data o = c.
 Proof. exact writes_are_reported_all. Qed.
 Print Assumptions writes_are_reported.
+
+(* without symbolic links, the disk after a successful writing build is
+   exactly: reported outputs hold their reported contents (whether rewritten or
+   skipped as unchanged), paths of the old hash table that are no longer
+   outputs are gone, everything else is untouched; reported paths are
+   pairwise distinct *)
+Theorem successful_build_disk_exact :
+  forall fixed opt st oc st' r,
+    step_gen phys_id fixed opt st oc = (st', r) ->
+    r_failed_early r = false -> write opt = true -> to_stdout opt = false ->
+    NoDup (map o_path (r_outputs r)) /\
+    forall p, lookup (disk st') p =
+      match find (fun o => path_eqb (o_path o) p) (r_outputs r) with
+      | Some o => Some (o_data o)
+      | None => if mem p (keys (latest st)) then None else lookup (disk st) p
+      end.
+Proof. exact successful_step_disk. Qed.
+Print Assumptions successful_build_disk_exact.
+
+(* ---- failed builds ---- *)
+
+(* a build with errors when the write phase starts, a cancelled build (it has
+   such an error), a build with writing disabled and a build in stdout mode
+   create or modify no file; what they delete is listed in the hash table *)
+Theorem failed_build_writes_nothing :
+  forall phys fixed opt st oc st' r,
+    step_gen phys fixed opt st oc = (st', r) ->
+    r_failed_early r = true \/ write opt = false \/ to_stdout opt = true ->
+    exists dels, r_effects r = map EDelete dels /\
+                 disk st' = apply phys (disk st) (map EDelete dels) /\
+                 (forall p, In p dels -> In p (keys (latest st))) /\
+                 (dels <> [] -> r_failed_early r = true /\ fixed = false /\ write opt = true /\ to_stdout opt = false).
+Proof. exact failed_step_shape. Qed.
+Print Assumptions failed_build_writes_nothing.
+
+(* REFUTED on the faithful model (DESIGN §7-F, replayed on the real code):
+   a rebuild that fails removes the outputs of the previous build *)
+Theorem failed_build_deletes_nothing_refuted :
+  exists opt d0 oc1 oc2,
+    let st1 := fst (step phys_id opt (init d0) oc1) in
+    let st2 := fst (step phys_id opt st1 oc2) in
+    let r2 := snd (step phys_id opt st1 oc2) in
+    r_failed_early r2 = true /\
+    exists p, lookup (disk st1) p <> None /\ lookup (disk st2) p = None.
+Proof. exact failed_build_deletes_nothing_refuted_w. Qed.
+Print Assumptions failed_build_deletes_nothing_refuted.
+
+(* REFUTED (by design upstream): "a build that reports errors creates no
+   file" - on-end callbacks run after the write phase *)
+Theorem reported_errors_write_nothing_refuted :
+  exists opt d0 oc,
+    let st1 := fst (step phys_id opt (init d0) oc) in
+    let r1 := snd (step phys_id opt (init d0) oc) in
+    r_errors r1 = true /\ exists p, lookup d0 p = None /\ lookup (disk st1) p <> None.
+Proof. exact reported_errors_write_nothing_refuted_w. Qed.
+Print Assumptions reported_errors_write_nothing_refuted.
+
+(* the candidate repair: a failed build is the identity on (disk, hash table) *)
+Theorem fixed_failed_build_changes_nothing :
+  forall phys opt st oc st' r,
+    step_fixed phys opt st oc = (st', r) -> r_failed_early r = true -> st' = st /\ r_effects r = [].
+Proof. exact fixed_failed_step_is_identity. Qed.
+Print Assumptions fixed_failed_build_changes_nothing.
+
+(* ---- inputs ---- *)
+
+(* without permission to overwrite, no write goes to a path whose canonical
+   form is the canonical form of an input (any file system) *)
+Theorem no_input_overwritten :
+  forall fixed phys opt st oc st' r p c,
+    step_gen phys fixed opt st oc = (st', r) -> effective_allow opt = false ->
+    In (EWrite p c) (r_effects r) -> ~ In (canon p) (map canon (inputs oc)).
+Proof. exact inputs_not_written. Qed.
+Print Assumptions no_input_overwritten.
+
+(* without symbolic links: an input keeps its contents, or it was in the hash
+   table and has been deleted (the strongest statement that holds) *)
+Theorem no_input_overwritten_disk_partial :
+  forall fixed opt st oc st' r q,
+    step_gen phys_id fixed opt st oc = (st', r) -> effective_allow opt = false -> In q (inputs oc) ->
+    lookup (disk st') q = lookup (disk st) q \/
+    (lookup (disk st') q = None /\ In q (keys (latest st)) /\ In (EDelete q) (r_effects r)).
+Proof. exact input_safe_or_deleted. Qed.
+Print Assumptions no_input_overwritten_disk_partial.
+
+(* REFUTED (DESIGN §7-F): a failing rebuild deletes one of its inputs *)
+Theorem no_input_deleted_refuted :
+  exists opt d0 oc1 oc2,
+    let st1 := fst (step phys_id opt (init d0) oc1) in
+    let st2 := fst (step phys_id opt st1 oc2) in
+    effective_allow opt = false /\
+    exists p, In p (inputs oc2) /\ lookup (disk st1) p <> None /\ lookup (disk st2) p = None.
+Proof. exact no_input_deleted_refuted_w. Qed.
+Print Assumptions no_input_deleted_refuted.
+
+(* REFUTED, also for the repaired step: a successful rebuild deletes a stale
+   output of the previous build that is an input of the current one *)
+Theorem no_input_deleted_by_successful_rebuild_refuted :
+  forall fixed, exists opt d0 oc1 oc2,
+    let st1 := fst (step_gen phys_id fixed opt (init d0) oc1) in
+    let st2 := fst (step_gen phys_id fixed opt st1 oc2) in
+    let r2 := snd (step_gen phys_id fixed opt st1 oc2) in
+    effective_allow opt = false /\ r_errors r2 = false /\
+    exists p, In p (inputs oc2) /\ lookup (disk st1) p <> None /\ lookup (disk st2) p = None.
+Proof. exact no_input_deleted_by_successful_rebuild_refuted_w. Qed.
+Print Assumptions no_input_deleted_by_successful_rebuild_refuted.
+
+(* REFUTED: with a symbolic link between the output path and an input, the
+   input is overwritten although overwriting is not allowed *)
+Theorem no_input_overwritten_via_symlink_refuted :
+  exists phys opt d0 oc,
+    let st1 := fst (step phys opt (init d0) oc) in
+    let r1 := snd (step phys opt (init d0) oc) in
+    effective_allow opt = false /\ r_errors r1 = false /\
+    exists p c, In p (inputs oc) /\ lookup d0 p = Some c /\ lookup (disk st1) p <> Some c /\ lookup (disk st1) p <> None.
+Proof. exact no_input_overwritten_via_symlink_refuted_w. Qed.
+Print Assumptions no_input_overwritten_via_symlink_refuted.
+
+(* ---- two outputs, one path ---- *)
+
+(* when Compile leaves no error in the log (directory mode): the returned
+   files have pairwise distinct canonical paths, all come from the linker,
+   every linked file is represented by a returned file with the same canonical
+   path and the same contents, two linked files with one canonical path have
+   equal contents, no linked file sits on an input unless overwriting is allowed *)
+Theorem two_outputs_one_path :
+  forall opt oc kept,
+    cancel_early oc = false -> to_stdout opt = false -> compile opt oc = (kept, false) ->
+    NoDup (map ckey kept) /\
+    (forall o, In o kept -> In o (linked oc)) /\
+    (forall o, In o (linked oc) -> exists k, In k kept /\ ckey k = ckey o /\ o_data k = o_data o) /\
+    (forall o1 o2, In o1 (linked oc) -> In o2 (linked oc) -> ckey o1 = ckey o2 -> o_data o1 = o_data o2) /\
+    (effective_allow opt = false -> forall o, In o (linked oc) -> ~ In (ckey o) (map canon (inputs oc))) /\
+    link_err oc = false.
+Proof. exact compile_ok_facts. Qed.
+Print Assumptions two_outputs_one_path.
+
+(* ---- histories of one context (induction over the list of rebuilds) ---- *)
+
+(* whatever a rebuild deletes was written by an earlier rebuild of the same
+   context and is not an output of the current one: every history, every
+   file system, pinned and repaired step *)
+Theorem deletes_only_own_earlier_outputs :
+  forall phys fixed opt d0 ocs pre res post,
+    trace_gen phys fixed opt (init d0) ocs = pre ++ res :: post ->
+    forall p, In (EDelete p) (r_effects res) ->
+      In p (written_paths pre) /\ ~ In p (map o_path (r_outputs res)).
+Proof. exact deletes_only_own_all. Qed.
+Print Assumptions deletes_only_own_earlier_outputs.
+
+(* every rebuild of a history is a step, so the one-step theorems apply to it *)
+Theorem history_elements_are_steps :
+  forall phys fixed opt st ocs res,
+    In res (trace_gen phys fixed opt st ocs) ->
+    exists st0 oc st1, step_gen phys fixed opt st0 oc = (st1, res).
+Proof. exact trace_elements_all. Qed.
+Print Assumptions history_elements_are_steps.
+
+(* ---- the model meets the independent specification (one step, no symlinks) ---- *)
+Theorem step_meets_spec :
+  forall fixed opt st st' oc r own,
+    step_gen phys_id fixed opt st oc = (st', r) -> to_stdout opt = false ->
+    (forall p, In p (keys (latest st)) -> In p own) ->
+    let o := obs_of opt st st' oc r own in
+    spec_only_reported o /\ spec_all_reported_written o /\ spec_deletes_own o /\
+    spec_failed_no_write o /\ spec_single_valued o.
+Proof. exact step_meets_spec_all. Qed.
+Print Assumptions step_meets_spec.
+
+(* the strong reading "a failed build leaves the tree unchanged": false of the
+   pinned step, true of the repaired step *)
+Theorem spec_failed_unchanged_refuted :
+  exists opt st oc own,
+    let st' := fst (step phys_id opt st oc) in
+    let r := snd (step phys_id opt st oc) in
+    to_stdout opt = false /\ (forall p, In p (keys (latest st)) -> In p own) /\
+    ~ spec_failed_unchanged (obs_of opt st st' oc r own).
+Proof. exact spec_failed_unchanged_refuted_w. Qed.
+Print Assumptions spec_failed_unchanged_refuted.
+
+Theorem fixed_step_meets_spec_failed_unchanged :
+  forall opt st st' oc r own,
+    step_fixed phys_id opt st oc = (st', r) -> to_stdout opt = false ->
+    spec_failed_unchanged (obs_of opt st st' oc r own).
+Proof. exact fixed_meets_failed_unchanged. Qed.
+Print Assumptions fixed_step_meets_spec_failed_unchanged.
